@@ -547,10 +547,24 @@ class Array(Generic[T], Collection):
         if is_primitive_integer(self.retrieve_inner_type()) and is_primitive_integer(
             other.retrieve_inner_type()
         ):
-            contained_type = (
+            left_type = (
                 self.contained_type
                 if inspect.isclass(self.contained_type)
                 else self.contained_type.__class__
+            )
+            right_type = (
+                other.contained_type
+                if inspect.isclass(other.contained_type)
+                else other.contained_type.__class__
+            )
+            if left_type.base_type != right_type.base_type:
+                raise InvalidTypeError(
+                    "Inner product requires arrays of the same integer type"
+                )
+            # The result is as secret as the most secret of the two element types.
+            contained_type = new_scalar_type(
+                Mode(max(left_type.mode.value, right_type.mode.value)),
+                left_type.base_type,
             )
             return contained_type(
                 child=InnerProduct(
